@@ -70,6 +70,9 @@ pub enum Scenario {
     /// runtime control: set_conn_timeout (6000 -> 1500/2000 ms) and set_mode over the control socket while
     /// traffic flows, then a black-hole: the new settings must be what the event loop acts on
     Control,
+    /// a control-socket client that holds 60 stats subscriptions and never reads, plus one that subscribes and
+    /// disconnects abruptly, while traffic flows: the event loop must keep ticking and the hub must clean up
+    StalledSubscriber,
 }
 
 #[derive(Clone, Debug)]
@@ -208,6 +211,7 @@ pub struct Session {
     t0_us: u64,
     dir: PathBuf,
     ips_path: PathBuf,
+    ctl_path: PathBuf,
     child: Option<Child>,
     stderr_path: PathBuf,
     rx: Option<UdpSocket>,
@@ -260,6 +264,10 @@ pub struct Session {
     sock_drops: HashMap<u64, u64>,
     my_ports: Vec<u16>,
     cur_timeout_ms: u64,
+    stalled_conn: Option<UnixStream>,
+    sub_count_mid: Option<u64>,
+    sub_count_end: Option<u64>,
+    sub_asked_end: bool,
     ctl_new_timeout: u64,
     ctl_new_mode: Option<String>,
     ctl_mode_ack_tick: Option<u32>,
@@ -387,6 +395,7 @@ impl Session {
             t0_us: t0,
             dir,
             ips_path,
+            ctl_path: ctl_path.clone(),
             child: Some(child),
             stderr_path,
             rx: Some(rx),
@@ -434,6 +443,10 @@ impl Session {
             sock_drops: HashMap::new(),
             my_ports: Vec::new(),
             cur_timeout_ms: 0,
+            stalled_conn: None,
+            sub_count_mid: None,
+            sub_count_end: None,
+            sub_asked_end: false,
             ctl_new_timeout: 0,
             ctl_new_mode: None,
             ctl_mode_ack_tick: None,
@@ -996,6 +1009,14 @@ impl Session {
                     self.ctl_mode_ack_tick = Some(self.ticks);
                 }
             }
+            201 => {
+                self.sub_count_mid = v["result"]["count"].as_u64();
+                self.ev(format!("get_subscription_count (stalled client connected): {}", v));
+            }
+            202 => {
+                self.sub_count_end = v["result"]["count"].as_u64();
+                self.ev(format!("get_subscription_count (after it went away): {}", v));
+            }
             _ => {}
         }
     }
@@ -1114,6 +1135,30 @@ impl Session {
                 }
                 Scenario::Forget { .. } | Scenario::Restart => self.set_phase(3),
                 Scenario::Reload(_) => self.set_phase(3),
+                Scenario::StalledSubscriber => {
+                    if in_phase == 7 {
+                        if let Some(c) = self.ctl.as_mut() {
+                            let _ = c.write_all(b"{\"jsonrpc\":\"2.0\",\"method\":\"get_subscription_count\",\"id\":201}\n");
+                        }
+                    }
+                    if in_phase >= 8 {
+                        self.count("C20.stalled_subscriber_phases_survived");
+                        match self.sub_count_mid {
+                            Some(61) => self.count("C20.count_with_stalled_client_checked"),
+                            Some(n) => {
+                                let d = format!("with this connection's 1 subscription and the stalled client's 60 (a third client subscribed and disconnected abruptly) the hub reports {n} subscriptions, expected 61");
+                                self.viol("C20", "C20.live.subscription-count-with-stalled-client", d);
+                            }
+                            None => {
+                                if self.timing_reliable() {
+                                    self.viol("C20", "C20.live.control-request-not-answered", "get_subscription_count was not answered within a sender tick while a stalled subscriber was connected".into());
+                                }
+                            }
+                        }
+                        self.stalled_conn = None; // the stalled client goes away
+                        self.set_phase(3);
+                    }
+                }
                 Scenario::Control => {
                     if self.ctl_fault_tick.is_none() && !self.links[self.fault_link].fault {
                         // settings acknowledged two ticks ago: now the black-hole
@@ -1189,6 +1234,29 @@ impl Session {
                                 self.viol("C08", "C08.live.group-not-reestablished", d);
                             } else {
                                 self.count("C08.recovery_skipped_unreliable_timing");
+                            }
+                            self.set_phase(4);
+                        }
+                    }
+                    Scenario::StalledSubscriber => {
+                        if in_phase >= 3 && !self.sub_asked_end {
+                            self.sub_asked_end = true;
+                            if let Some(c) = self.ctl.as_mut() {
+                                let _ = c.write_all(b"{\"jsonrpc\":\"2.0\",\"method\":\"get_subscription_count\",\"id\":202}\n");
+                            }
+                        }
+                        if in_phase >= 4 {
+                            match self.sub_count_end {
+                                Some(1) => self.count("C20.cleanup_checked"),
+                                Some(n) => {
+                                    let d = format!("3 sender ticks (and stats publishes) after the stalled client with 60 subscriptions disconnected the hub still reports {n} subscriptions, expected 1 (this connection's)");
+                                    self.viol("C20", "C20.live.subscriptions-not-cleaned-up", d);
+                                }
+                                None => {
+                                    if self.timing_reliable() {
+                                        self.viol("C20", "C20.live.control-request-not-answered", "get_subscription_count was not answered within a sender tick after the stalled subscriber left".into());
+                                    }
+                                }
                             }
                             self.set_phase(4);
                         }
@@ -1269,6 +1337,24 @@ impl Session {
                 self.ev("receiver socket closed".into());
             }
             Scenario::Reload(kind) => self.do_reload(kind),
+            Scenario::StalledSubscriber => {
+                // client A: 60 subscriptions, never reads a byte
+                if let Ok(mut c) = UnixStream::connect(&self.ctl_path) {
+                    let _ = c.set_nonblocking(true);
+                    let mut req = String::new();
+                    for i in 0..60 {
+                        req.push_str(&format!("{{\"jsonrpc\":\"2.0\",\"method\":\"subscribe\",\"params\":{{\"topic\":\"stats\"}},\"id\":{}}}\n", 1000 + i));
+                    }
+                    let _ = c.write_all(req.as_bytes());
+                    self.stalled_conn = Some(c);
+                }
+                // client B: subscribes and vanishes
+                if let Ok(mut c) = UnixStream::connect(&self.ctl_path) {
+                    let _ = c.write_all(b"{\"jsonrpc\":\"2.0\",\"method\":\"subscribe\",\"params\":{\"topic\":\"stats\"},\"id\":7}\n{\"jsonrpc\":\"2.0\",\"method\":\"subscribe\",\"params\":{\"topic\":\"priority.window\"},\"id\":8}\n");
+                    drop(c);
+                }
+                self.ev("stalled subscriber (60 subscriptions, never reads) and an abruptly disconnecting one are connected".into());
+            }
             Scenario::Control => {
                 self.fault_link = self.rng.usize_below(n);
                 self.ctl_new_timeout = *self.rng.pick(&[1500u64, 2000]);
@@ -1492,6 +1578,16 @@ impl Session {
                 }
             }
             self.read_ctl();
+            if self.o.scenario == Scenario::StalledSubscriber
+                && (self.phase == 2 || self.phase == 3)
+                && self.last_push_us != 0
+                && now_us().saturating_sub(self.last_push_us) > 15_000_000 * self.o.slow
+                && self.harness_stalls == 0
+            {
+                let d = format!("no stats push reached this (reading) subscriber for 15 s while a stalled subscriber with 60 subscriptions was connected, although the harness loop never stalled: the sender's event loop is blocked (last tick {}, {} client datagrams delivered so far)", self.ticks, self.sent.iter().filter(|s| s.delivered > 0).count());
+                self.viol("C20", "C20.live.event-loop-blocked-by-stalled-subscriber", d);
+                self.set_phase(9);
+            }
             if let Some(st) = self.child_exited() {
                 let tail = self.stderr_tail();
                 let d = format!("the sender process exited ({st}) in phase {} at tick {}; stderr tail: {tail}", self.phase, self.ticks);
